@@ -1,5 +1,8 @@
 """Translator: regenerate lean/NavisModel/Gen/*.lean from the *current* navis source tree.
-Every generated file is written only when its content changed (keeps `lake build` a no-op)."""
+Every generated file is written only when its content changed (keeps `lake build` a no-op).
+Each translator module `translator/gen_*.py` declares PROPS (the properties whose theorems depend on
+its output) and `generate(repo) -> (filename, lean_source, meta_dict)`."""
+import importlib, pkgutil
 from pathlib import Path
 
 
@@ -11,14 +14,21 @@ def write_if_changed(p: Path, s: str):
     return True
 
 
-def regenerate(repo: Path, out: Path):
+def modules():
+    import translator
+    for m in pkgutil.iter_modules(translator.__path__):
+        if m.name.startswith('gen_'):
+            yield importlib.import_module(f'translator.{m.name}')
+
+
+def regenerate(repo: Path, out: Path, prop=None):
+    """Run every translator module serving `prop` (all when prop is None)."""
     info = {'files': {}}
-    from . import gen_smat, gen_cache, gen_consts
-    for m in (gen_smat, gen_cache, gen_consts):
-        try:
-            name, src, meta = m.generate(repo)
-        except NotImplementedError:
+    for m in modules():
+        props = getattr(m, 'PROPS', [])
+        if prop is not None and prop not in props:
             continue
+        name, src, meta = m.generate(Path(repo))
         changed = write_if_changed(out / name, src)
-        info['files'][name] = dict(meta, changed=changed)
+        info['files'][name] = dict(meta, changed=changed, module=m.__name__)
     return info
